@@ -100,6 +100,7 @@ class Inliner:
             if any(c.callee and program.resolve_callee(b.crate, c) is b for c in b.calls()):
                 continue    # directly recursive: stays a call
             self.helpers[b.key] = b
+        self.sites = 0
         self.log = []       # (helper key, caller key, file:line of the call)
         self.skipped = []   # (helper key, reason)
 
@@ -191,7 +192,13 @@ class Inliner:
         cont = call.get("t")
         unwind = call.get("unwind")
         sp = call.get("sp")
+        self.sites += 1
+        site = "%d" % self.sites
         for b in blocks:
+            # which expansion a block belongs to (innermost helper, unique per expansion): rules that pair source facts of
+            # the helper with its statements treat every copy separately
+            inner = b.get("inl")
+            b["inl"] = [inner[0], site + "/" + inner[1]] if inner else [H["path"], site]
             _map_locals(b["stmts"], ml)
             t = b["term"]
             if t is None:
@@ -321,6 +328,8 @@ class Inliner:
                 for n, pb in enumerate(full):
                     src = C["blocks"][pb]
                     nb = {"cleanup": src.get("cleanup", False), "stmts": copy.deepcopy(src["stmts"]), "term": None, "threaded_from": pb}
+                    if src.get("inl"):
+                        nb["inl"] = src["inl"]
                     last = n == len(full) - 1
                     st = src["term"]
                     if last:
